@@ -451,7 +451,7 @@ where
     let (an, aa) = a.neg_abs();
     let (bn, ba) = b.neg_abs();
     let want = settle::<L::Bits>(floor_shr256(an != bn, mul256(aa, ba), L::frac_nbits()));
-    kani::cover!(want.overflow, "W:product overflows");
+    kani::cover!(want.overflow || L::int_nbits() <= 1, "W:product overflows (or at most one integer bit)");
     kani::cover!(!want.overflow && aa != 0 && ba != 0, "W:non-zero product fits");
     four_forms!(L, want, x.overflowing_mul(y), x.wrapping_mul(y), x.checked_mul(y), x.saturating_mul(y),
         "128-bit mul: checked/saturating/wrapping/overflowing agree with floor(a*b/2^f) (256-bit limb product)");
@@ -505,4 +505,64 @@ where
         assert!(dhi == 0 && dlo < ba, "128-bit quotient: |a| 2^f - |q||b| < |b|");
         assert!(qa == 0 || qn == neg, "128-bit quotient has the sign of a/b");
     }
+}
+
+impl I256 {
+    /// self * 2^k, 0 <= k <= 128 (exact while |self| < 2^127 * 2^... : callers keep |self| < 2^128)
+    #[inline(always)]
+    pub fn shl(self, k: u32) -> I256 {
+        if k == 0 {
+            self
+        } else if k >= 128 {
+            I256 { hi: self.lo, lo: 0 }
+        } else {
+            I256 { hi: (self.hi << k) | (self.lo >> (128 - k)), lo: self.lo << k }
+        }
+    }
+    /// floor(self / 2^k), 0 <= k <= 128 (arithmetic shift)
+    #[inline(always)]
+    pub fn sar(self, k: u32) -> I256 {
+        let fill = if self.is_neg() { u128::MAX } else { 0 };
+        if k == 0 {
+            self
+        } else if k >= 128 {
+            I256 { hi: fill, lo: self.hi }
+        } else {
+            I256 { hi: (self.hi >> k) | (fill << (128 - k)), lo: (self.lo >> k) | (self.hi << (128 - k)) }
+        }
+    }
+    /// floor(self * 2^(fd - fs))
+    #[inline(always)]
+    pub fn rescale(self, fs: u32, fd: u32) -> I256 {
+        if fd >= fs { self.shl(fd - fs) } else { self.sar(fs - fd) }
+    }
+}
+
+/// floor((-1)^neg * aa * 2^(fd - fs)) as sign and 256-bit magnitude (exact for all 128-bit aa, fs, fd <= 128)
+#[inline(always)]
+pub fn rescale_sm(neg: bool, aa: u128, fs: u32, fd: u32) -> (bool, U256) {
+    if fd >= fs {
+        (neg && aa != 0, U256::shl_u128(aa, fd - fs))
+    } else {
+        let k = fs - fd;
+        let q = if k >= 128 { 0 } else { aa >> k };
+        let rem = if k >= 128 { aa != 0 } else { (aa & ((1u128 << k) - 1)) != 0 };
+        let m = if neg && rem { q + 1 } else { q };
+        (neg && m != 0, U256 { hi: 0, lo: m })
+    }
+}
+
+/// reduce an exact sign/magnitude result to a W-bit type
+#[inline(always)]
+pub fn settle_sm<B: Raw>(neg: bool, mag: U256) -> Want<B> {
+    let w = B::W;
+    let neg = neg && (mag.hi != 0 || mag.lo != 0);
+    let fits = if B::SIGNED {
+        let lim = 1u128 << (w - 1);
+        mag.hi == 0 && if neg { mag.lo <= lim } else { mag.lo < lim }
+    } else {
+        !neg && mag.hi == 0 && (w == 128 || mag.lo < (1u128 << w))
+    };
+    let low = if neg { mag.lo.wrapping_neg() } else { mag.lo };
+    Want { wrapped: B::trunc(low), overflow: !fits, positive: !neg }
 }
